@@ -15,6 +15,14 @@ from .base import T0, minutes
 from .kit import Ctx
 
 
+RAW_HOOK = [None]  # C02 varies the FUTURE of the raw input frames: hook(name, frame) -> frame, applied where a raw input frame is created,
+#                    before any of the repository's preparation code (statistic columns, price extraction) sees it
+
+
+def _raw(name, df):
+    return RAW_HOOK[0](name, df) if RAW_HOOK[0] is not None else df
+
+
 AUTO_BEGIN = [True]  # the actuator driver (actdrv.py) switches this off: there the real Actuator.run positions the markets
 
 
@@ -57,7 +65,7 @@ def uni_world(orient="q0", frozen_bar=1, closes=(200000, 200013, 199991), fee_vo
         ticks = [-t for t in closes]
         ranges = {"in": (-200500, -199500), "lo": (-199000, -198000), "hi": (-202000, -201000)}
         in1, in0 = fee_vol
-    raw = uni.raw_frame(ticks, in0, in1, 4 * 10**16, open_tick=ticks[0])
+    raw = _raw("uni.raw", uni.raw_frame(ticks, in0, in1, 4 * 10**16, open_tick=ticks[0]))
     data = uni.prepared(raw, pool)
     price_df, quote = get_price_from_data(data, pool)
     prices = _decimal_prices(price_df)
@@ -110,8 +118,8 @@ def uni_xq_world(frozen_bar=1):
 def aave_world(frozen_bar=1, n=4):
     from . import aave
 
-    frames = aave.make_data(n)
-    prices = aave.price_frame(n)
+    frames = {k: _raw(f"aave.{k}", v) for k, v in aave.make_data(n).items()}
+    prices = _raw("prices.raw", aave.price_frame(n))
 
     def build():
         m = aave.make_market(frames)
@@ -137,7 +145,7 @@ def aave_world(frozen_bar=1, n=4):
 def squeeth_world(kind="eq", frozen_bar=8, n=10, with_osqth=True):
     from . import squeeth as sq
 
-    udata, sdata, prices = sq.make_frames(kind, n)
+    udata, sdata, prices = sq.make_frames(kind, n, hook=_raw)
     name = f"squeeth({kind})" if with_osqth else f"squeeth({kind},no-osqth-entry)"
     ranges = {"in": (sq.TICK0 - 1200, sq.TICK0 + 1200), "lo": (sq.TICK0 - 6000, sq.TICK0 - 3000), "hi": (sq.TICK0 + 3000, sq.TICK0 + 6000)}
 
@@ -168,7 +176,7 @@ def squeeth_world(kind="eq", frozen_bar=8, n=10, with_osqth=True):
 def deribit_world(frozen_bar=1):
     from . import deribit as db
 
-    data = db.std_frame(3)
+    data = _raw("deribit.raw", db.std_frame(3))
     prices = db.price_frame(data)
     index = data.index.get_level_values(0).unique()
 
@@ -189,10 +197,10 @@ def deribit_world(frozen_bar=1):
 
 
 # ---------------------------------------------------------------------------------------------------------
-def gmx1_world(frozen_bar=1, usdg_class=None):
+def gmx1_world(frozen_bar=1, usdg_class=None, n=3):
     from . import gmx
 
-    data = gmx.v1_frame(3, usdg_class)
+    data = _raw("gmx1.raw", gmx.v1_frame(n, usdg_class))
     prices = gmx.v1_prices(data)
 
     def build():
@@ -205,10 +213,10 @@ def gmx1_world(frozen_bar=1, usdg_class=None):
     return World("gmx1", build, roots, {"gmx1.data": data, "prices": prices})
 
 
-def gmx2_world(frozen_bar=1, kind="mild", impact="small"):
+def gmx2_world(frozen_bar=1, kind="mild", impact="small", n=3):
     from . import gmx
 
-    data = gmx.v2_frame(3, kind, impact)
+    data = _raw("gmx2.raw", gmx.v2_frame(n, kind, impact))
     prices = gmx.v2_prices(data, gmx.make_v2(data))
 
     def build():
@@ -228,9 +236,9 @@ def aave_path_world(n=5):
     """Aave with moving prices (a liquidating bar) and per-token index growth: for the bar-by-bar properties (C01, C02, C05)."""
     from . import aave
 
-    frames = aave.make_data(n)
-    prices = aave.price_frame(n, {"WETH": [1, "1.01", "0.58", "0.6", "0.9"][:n], "DAI": [1, "1.002", 1, "0.998", 1][:n],
-                                  "WBTC": [1, "0.97", "1.04", 1, 1][:n]})
+    frames = {k: _raw(f"aave.{k}", v) for k, v in aave.make_data(n).items()}
+    prices = _raw("prices.raw", aave.price_frame(n, {"WETH": [1, "1.01", "0.58", "0.6", "0.9"][:n], "DAI": [1, "1.002", 1, "0.998", 1][:n],
+                                  "WBTC": [1, "0.97", "1.04", 1, 1][:n]}))
 
     def build():
         m = aave.make_market(frames)
@@ -252,15 +260,18 @@ def uni_aave_world(n=4):
 
     pool = uni.pool_q0()
     ticks = [200000, 200013, 199400, 199991][:n]
-    raw = uni.raw_frame(ticks, 5 * 10**9, 2 * 10**18, 4 * 10**16, open_tick=ticks[0])
+    raw = _raw("uni.raw", uni.raw_frame(ticks, 5 * 10**9, 2 * 10**18, 4 * 10**16, open_tick=ticks[0]))
     data = uni.prepared(raw, pool)
     price_df, quote = get_price_from_data(data, pool)
-    frames = aave.make_data(n)
+    frames = {k: _raw(f"aave.{k}", v) for k, v in aave.make_data(n).items()}
     prices = aave.price_frame(n, {"DAI": [1, "1.002", 1, "0.998"][:n]})
-    up = _decimal_prices(price_df)
     usdc_usd = [Decimal("1"), Decimal("0.999"), Decimal("1.001"), Decimal("1")][:n]
     prices["USDC"] = usdc_usd
-    prices["WETH"] = [up["WETH"].iloc[i] * usdc_usd[i] for i in range(n)]  # consistent: WETH/USD = WETH/USDC x USDC/USD
+    prices = _raw("prices.raw", prices)
+    n = len(data.index)
+    up = _decimal_prices(price_df)
+    prices = prices.loc[data.index[0]:data.index[-1]].copy()
+    prices["WETH"] = [up["WETH"].iloc[i] * prices["USDC"].iloc[i] for i in range(n)]  # consistent: WETH/USD = WETH/USDC x USDC/USD
     ranges = {"in": (199500, 200500), "lo": (198000, 199000), "hi": (201000, 202000)}
 
     def build():
@@ -286,10 +297,10 @@ def deribit_uni_world(hours=3):
     pool = uni.pool_q0()
     n = (hours - 1) * 60 + 1
     ticks = [200000 + (13 * i) % 40 - 20 for i in range(n)]
-    raw = uni.raw_frame(ticks, 5 * 10**8, 2 * 10**17, 4 * 10**16, open_tick=ticks[0])
+    raw = _raw("uni.raw", uni.raw_frame(ticks, 5 * 10**8, 2 * 10**17, 4 * 10**16, open_tick=ticks[0]))
     data = uni.prepared(raw, pool)
     price_df, quote = get_price_from_data(data, pool)
-    odata = db.std_frame(hours)
+    odata = _raw("deribit.raw", db.std_frame(hours))
     prices = db.price_frame(odata).loc[data.index[0]:data.index[-1]].copy()
     up = _decimal_prices(price_df)
     prices["WETH"] = up["WETH"]
